@@ -76,6 +76,11 @@ class RecommendOracle(Oracle):
             return
         self.judge(ctx)
 
+    def end(self, ctx):
+        # also when the run ended because pull had nothing left to propose (the last pull may have grown the tree)
+        if ctx.t >= 1 and ctx.src.pos > ctx.changed_pos:
+            self.judge(ctx)
+
     # ------------------------------------------------------------------
     def query(self, ctx):
         self.log.phase = "query"
